@@ -17,12 +17,18 @@ CHECKS = {
  'C04': dict(cat='exploration', sec='4/C04', tech='runtime monitoring: address-set (aliasing) monitor, source snapshot, mutation probes, Go race detector on concurrent calls of emitted code',
    text='Per executed conversion the memory reachable from source and result must be disjoint (except identical-type positions under skipCopySameType), the source unchanged, mutation of one side invisible on the other; concurrent calls on a shared source run under the race detector.',
    note='race detector judges executed interleavings only; address arithmetic via reflect/unsafe'),
+ 'C09': dict(cat='exploration', sec='4/C09', tech='runtime monitoring: repeated / permuted / relocated / in-process / regenerating runs of the real CLI in fresh processes; byte comparison of exit status, normalised diagnostic and written files against a reference run',
+   text='Programs built to contain several candidates for every map-ordered decision (and failing programs with several simultaneous faults) are run by a reference process and by k further fresh processes, with permuted/duplicated/wildcard patterns, -cwd, GOMAXPROCS=1, a relocated copy, the in-process API and on top of their own output; every observation must equal the reference byte for byte.',
+   note='an order dependence between two candidates escapes k repeats with probability 2^-(k-1); fixed program set plus seeds'),
  'C13': dict(cat='exploration', sec='4/C13', tech='runtime monitoring: one watched child process of the real CLI per fuzzed input (type grammar, directive grammar+mutation, argv); exit-status/stderr/panic-dump/hang monitor',
    text='Thousands of generated inputs over the exotic part of the Go type grammar, mutated directives at every directive position and random argument vectors are each run in their own CLI process under a watchdog; exit status must be 0 or 1, no Go panic dump, failures carry a diagnostic naming the declaration.',
    note='hang = no termination within 60 s (300x normal); non-compiling generated inputs are dropped before goverter sees them'),
  'C15': dict(cat='exploration', sec='4/C15', tech='runtime monitoring: real CLI under strace in scratch module trees; written-path set, package clause, open/mkdir mode arguments vs an independent layout model',
    text='Seeded layout scenarios (output:file default/relative/parent/absolute/@cwd/same-package x output:package absent/PATH/PATH:NAME/:NAME x existing target package x shared files x invocation from root, sub-directory, -cwd) are run through the real CLI; the set of written paths, each package clause and the requested modes must equal the layout model, conflicting shared files must be rejected, and the module must build.',
    note='layout model written from docs/reference/output.md; inconsistent output:package PATH and :NAME compile edge cases are not judged'),
+ 'C16': dict(cat='exploration', sec='4/C16', tech='runtime monitoring: regeneration histories through the real CLI over prior output states; header monitor on every emitted file; byte comparison with clean-tree generation',
+   text='The complete table layouts x build-tag/constraint pairs x prior output state (absent, current, older version, longer, truncated, syntactically broken) is run: the last run must exit 0 and leave bytes equal to a clean-tree generation, and every emitted file must start with header, //go:build line (absent iff configured empty), blank line, package clause.',
+   note='complementary tag pairs only; broken prior output without the constraint line is outside the guarantee'),
  'C17': dict(cat='fault_enumeration', sec='4/C17', tech='runtime monitoring: real CLI under strace (syscall log of file-system effects) with enumerated faulty-converter subsets, prior output states and injected I/O faults; tree digest before/after',
    text='For multi-package scenarios every subset of converters (all subsets up to 4 converters) is made faulty at directive, signature or conversion stage; a failing run must exit 1 with a diagnostic and perform no mutating syscall below the module tree; fault-free runs must leave exactly the in-process result; help/usage vectors and strace-injected ENOSPC/EACCES faults complete the enumeration.',
    note='strace -ff -y sees all syscalls of the CLI and children; in-process public API result is the byte reference for successful runs'),
